@@ -67,7 +67,9 @@ PushLater(r, t) ==
    /\ hist # <<>> /\ Len(hist) < MaxRuns /\ Cardinality(cur) < MaxPush
    /\ r \in PlainRels(P) \cup PushableLats(P) /\ <<r, t>> \notin cur
    /\ IF IsLat(P, r)
-      THEN /\ \A f \in cur : f[1] = r => Front(f[2]) # Front(t)
+      THEN \* at most one pushed row per lattice key in the whole history (two pushed rows for one key are duplicates made
+           \* by the caller: already a fresh run keeps one of them unjoined, the property says nothing about them)
+           /\ \A f \in cur \cup UNION { hist[i] : i \in DOMAIN hist } : f[1] = r => Front(f[2]) # Front(t)
            \* new information only: not below what the program already holds for that key
            /\ ~ \E u \in LeastModel(P, Sealed)[r] : Front(u) = Front(t) /\ Leq(LatTy(RelOf(P, r).lat), Last(t), Last(u))
       ELSE t \notin LeastModel(P, Sealed)[r]
